@@ -29,6 +29,9 @@ pub struct WirePlan {
     /// leader/follower extension (C11, C12)
     #[serde(default)]
     pub cluster: Option<crate::cluster::ClusterSpec>,
+    /// authorization required (C15): grants per client
+    #[serde(default)]
+    pub auth: Option<crate::check_extra::AuthSpec>,
 }
 
 pub fn mix_for(focus: &str) -> Mix {
@@ -120,6 +123,31 @@ pub fn mix_for(focus: &str) -> Mix {
             m.pdelete = 3;
             m.grave_goods = 2;
             m.last_will = 2;
+        }
+        "C15" => {
+            m.get = 8;
+            m.cget = 3;
+            m.pget = 8;
+            m.set = 10;
+            m.cset = 4;
+            m.delete = 5;
+            m.pdelete = 6;
+            m.ls = 5;
+            m.pls = 4;
+            m.publish = 3;
+            m.spub = 3;
+            m.subscribe = 3;
+            m.psubscribe = 4;
+            m.subscribe_ls = 2;
+            m.lock = 2;
+        }
+        "C16w" => {
+            m.set = 30;
+            m.delete = 10;
+            m.pdelete = 2;
+            m.cset = 5;
+            m.publish = 5;
+            m.sleep = 6;
         }
         "C13" => {
             m.get = 6;
@@ -342,10 +370,91 @@ pub fn gen_plan(rng: &mut Rng, focus: &str, thorough: bool) -> WirePlan {
             imports.push((rng.range(0, 100_000), gen_import(rng, n as usize)));
         }
     }
+    let mut auth = None;
+    if focus == "C15" {
+        let pats = ["a/#", "a/?", "b", "#", "a/b/#", "?/a", "a", "b/#", "?", "a/?/?"];
+        let mut grants = vec![];
+        for cp in clients.iter_mut() {
+            let kind = match rng.below(8) {
+                0 => crate::check_extra::TokenKind::Missing,
+                1 => crate::check_extra::TokenKind::Forged,
+                2 => crate::check_extra::TokenKind::Expired,
+                _ => crate::check_extra::TokenKind::Valid,
+            };
+            let mut pick = |rng: &mut Rng| -> Vec<String> {
+                (0..rng.range(0, 3)).map(|_| rng.pick(&pats).to_string()).collect()
+            };
+            grants.push(crate::check_extra::Grant {
+                kind,
+                read: pick(rng),
+                write: pick(rng),
+                delete: pick(rng),
+            });
+            cp.proto = *rng.pick(&[None, Some(1)]);
+            cp.crash_after_op = None;
+        }
+        auth = Some(crate::check_extra::AuthSpec {
+            key: "sim-secret-key".into(),
+            grants,
+        });
+    }
+    if focus == "C16" {
+        // client 0: the subscriber (plain + aggregated twin on the same pattern, set up before any
+        // writer starts); the others: writers producing bursts, repeated keys, set/delete alternation
+        clients.clear();
+        let n_pairs = rng.range(1, 2);
+        let mut ops = vec![];
+        for _ in 0..n_pairs {
+            let pat = rng.pick(&["a/#", "#", "a/?", "b/#", "?/a"]).to_string();
+            let unique = rng.chance(1, 3);
+            let live = rng.chance(1, 2);
+            let ms = *rng.pick(&[1u64, 10, 100, 1000]);
+            let mut plain = json!({"requestPattern": pat, "unique": unique});
+            let mut agg = json!({"requestPattern": pat, "unique": unique, "aggregateEvents": ms});
+            if live {
+                plain["liveOnly"] = json!(true);
+                agg["liveOnly"] = json!(true);
+            }
+            if rng.chance(1, 2) {
+                ops.push(Op::Req(json!({"pSubscribe": plain})));
+                ops.push(Op::Req(json!({"pSubscribe": agg})));
+            } else {
+                ops.push(Op::Req(json!({"pSubscribe": agg})));
+                ops.push(Op::Req(json!({"pSubscribe": plain})));
+            }
+        }
+        clients.push(ClientPlan {
+            proto: Some(1),
+            pipeline: false,
+            start_delay_us: 0,
+            think_us: 0,
+            ops,
+            end: EndKind::Stay,
+            crash_after_op: None,
+            auth_token: None,
+        });
+        let wmix = mix_for("C16w");
+        for c in 1..=rng.range(1, 3) as usize {
+            let n_ops = rng.range(3, if thorough { 40 } else { 25 }) as usize;
+            let mut w = gen_::gen_client(rng, c, &wmix, n_ops, 2, &lock_keys, &cas_keys, true);
+            for op in w.ops.iter_mut() {
+                tame(op, rng);
+                if let Op::Sleep(us) = op {
+                    *us = *rng.pick(&[500u64, 5_000, 50_000, 500_000, 1_500_000]);
+                }
+            }
+            w.start_delay_us = 2_000_000 + rng.range(0, 50_000);
+            w.think_us = *rng.pick(&[0, 100, 2_000]);
+            w.proto = Some(1);
+            w.end = EndKind::Stay;
+            w.crash_after_op = None;
+            clients.push(w);
+        }
+    }
     WirePlan {
         focus: focus.to_owned(),
         knobs,
-        channel_buffer_size: *rng.pick(&[1usize, 2, 8, 1000, 1000]),
+        channel_buffer_size: if focus == "C16" { *rng.pick(&[8usize, 1000]) } else { *rng.pick(&[1usize, 2, 8, 1000, 1000]) },
         extended_monitoring: rng.chance(1, 2),
         send_timeout_s: if rng.chance(1, 4) { Some(1) } else { None },
         clients,
@@ -357,6 +466,7 @@ pub fn gen_plan(rng: &mut Rng, focus: &str, thorough: bool) -> WirePlan {
         } else {
             None
         },
+        auth,
     }
 }
 
@@ -404,7 +514,9 @@ pub async fn run(plan: WirePlan) -> Outcome {
     let em = plan.extended_monitoring;
     let st = plan.send_timeout_s;
     let cl = plan.cluster.clone();
+    let auth_key = plan.auth.as_ref().map(|a| a.key.clone());
     let server = match harness::start_server("wb", move |c| {
+        c.auth_token_key = auth_key;
         c.channel_buffer_size = cbs;
         c.extended_monitoring = em;
         c.send_timeout = st.map(Duration::from_secs);
@@ -462,6 +574,12 @@ pub async fn run(plan: WirePlan) -> Outcome {
     let mut protos = BTreeMap::new();
     for (i, cp) in plan.clients.iter().enumerate() {
         protos.insert(i, cp.proto.unwrap_or(1));
+        let mut cp = cp.clone();
+        if let Some(a) = &plan.auth {
+            if let Some(g) = a.grants.get(i) {
+                cp.auth_token = mint_token(&a.key, g);
+            }
+        }
         let c = Client {
             idx: i,
             plan: cp.clone(),
@@ -504,6 +622,10 @@ pub async fn run(plan: WirePlan) -> Outcome {
         if let Ok(Ok(x)) = tokio::time::timeout_at(deadline, h).await {
             imports_done.push(x);
         }
+    }
+    if plan.focus == "C16" {
+        // let the longest aggregation interval (1000 ms) run out before looking for quiescence
+        tokio::time::sleep(Duration::from_millis(1200) + Duration::from_micros(knobs.max_stall_us * 4)).await;
     }
     if !harness::quiesce(&knobs, 0).await {
         out.inconclusive = true;
@@ -653,6 +775,11 @@ pub async fn run(plan: WirePlan) -> Outcome {
             let pending_ok = crate::check_locks::check(&mut ck, &rp, &alive);
             ck.check_answers(&alive, &pending_ok);
             ck.check_readback(&rp, &rb);
+            if let Some(a) = &plan.auth {
+                crate::check_extra::check_auth(&mut ck, a);
+            }
+            let calm = plan.knobs.max_stall_us == 0 && plan.knobs.lat_max_us == 0 && plan.knobs.p_defer == 0;
+            crate::check_extra::check_aggregated(&mut ck, calm);
             crate::check_import::check_session_ends(&mut ck, &rp, &plan);
         }
     }
@@ -735,6 +862,32 @@ pub async fn run(plan: WirePlan) -> Outcome {
     out
 }
 
+fn mint_token(key: &str, g: &crate::check_extra::Grant) -> Option<String> {
+    use crate::check_extra::TokenKind;
+    let now = std::time::SystemTime::now()
+        .duration_since(std::time::UNIX_EPOCH)
+        .map(|d| d.as_secs())
+        .unwrap_or(0);
+    let (signing_key, exp) = match g.kind {
+        TokenKind::Missing => return None,
+        TokenKind::Forged => ("another-key", now + 3600),
+        TokenKind::Expired => (key, now.saturating_sub(7200)),
+        TokenKind::Valid => (key, now + 3600),
+    };
+    let claims = json!({
+        "sub": "sim",
+        "name": "simulated client",
+        "exp": exp,
+        "worterbuchPrivileges": {"read": g.read, "write": g.write, "delete": g.delete},
+    });
+    jsonwebtoken::encode(
+        &jsonwebtoken::Header::new(jsonwebtoken::Algorithm::HS256),
+        &claims,
+        &jsonwebtoken::EncodingKey::from_secret(signing_key.as_bytes()),
+    )
+    .ok()
+}
+
 pub fn death_signature(panic_msg: &str) -> String {
     if panic_msg.contains("store.rs") && panic_msg.contains("is_clean") && panic_msg.contains("self.data") {
         "store tree left unclean: debug assertion in delete fails, the core task panics and the server stops".into()
@@ -769,6 +922,8 @@ fn nontrivial(plan: &WirePlan, parsed: &check_wire::Parsed, rp: &check_wire::Rep
         "C07" => !rp.ended.is_empty() && rp.groups.len() >= 2,
         "C11" | "C12" => rp.groups.len() >= 3,
         "C13" => answered >= 5 && errs >= 1,
+        "C15" => answered >= 4 && errs >= 1,
+        "C16" => parsed.subs.values().any(|s| s.msgs.len() >= 3),
         _ => answered >= 3,
     }
 }
@@ -800,7 +955,7 @@ pub fn sample_of(plan: &WirePlan, history: &[Ev]) -> Value {
     for ev in history.iter().take(400) {
         let l = match ev {
             Ev::Send { seq, client, line, .. } => format!("{seq} c{client} -> {line}"),
-            Ev::Recv { seq, client, msg } => format!("{seq} c{client} <- {}", check_wire::describe(msg)),
+            Ev::Recv { seq, client, msg, .. } => format!("{seq} c{client} <- {}", check_wire::describe(msg)),
             Ev::RecvGarbage { seq, client, line } => format!("{seq} c{client} <- GARBAGE {line}"),
             Ev::Closed { seq, client, how } => format!("{seq} c{client} closed: {how}"),
             Ev::Welcome { seq, client, client_id } => format!("{seq} c{client} welcome {client_id}"),
